@@ -253,7 +253,7 @@ def csvpath_next():
                 "record_list": "self.g_records", "record_lists": ["self._unmatched"],
                 "defaults": {"LineMonitor": {"_physical_end_line_count": 1, "_physical_line_number": 0}}},
         property_clauses={"yields_exactly_the_accepted_lines": "C01,C13,C15", "once_in_file_order": "C01", "nothing_else_yielded": "C01",
-                          "no_record_after_the_stopping_one": "C13", "considers_every_record_until_stop": "C01,C02",
+                          "no_record_after_the_stopping_one": "C13,C07", "considers_every_record_until_stop": "C01,C02,C07",
                           "unmatched_is_the_complement": "C15", "unmatched_in_file_order": "C15", "no_run_reads_nothing": "C15", "finalizes": "C07"},
         doc={"yields_exactly_the_accepted_lines": "C01: 'next()/collect() return exactly those scanned lines on which the match components ... hold'",
              "once_in_file_order": "C01: 'Each such line is returned once, in file order'",
@@ -396,9 +396,18 @@ def line_monitor_next_line():
         opaque_new=["LastLineStats"], class_fields=cfl, macros=MACROS, returns="none",
         native={"defaults": {}},
         property_clauses={"physical_number_counts_records_from_zero": "C02,C03", "physical_count_is_number_plus_one": "C03",
-                          "data_count_moves_only_for_nonblank_records": "C03,C02", "data_count_is_one_based_count_of_nonblank_records": "C03"},
+                          "data_count_moves_only_for_nonblank_records": "C03,C02", "data_count_is_one_based_count_of_nonblank_records": "C03",
+                          "cover:first_blank_then_data": "C03"},
         doc={"physical_number_counts_records_from_zero": "C02: 'line numbers are 0-based positions of CSV records'; C03: line_number() reports the 0-based position",
              "data_count_is_one_based_count_of_nonblank_records": "C03: count_lines() reports the 1-based position among data lines"})
+
+
+def select(cs, idents):
+    """all contracts stay available as callees; only the listed ones (and none of the interfaces) are verified by the calling property"""
+    for c in cs:
+        if not c.interface and c.ident not in idents:
+            c._foreign = True
+    return cs
 
 
 def contracts():
